@@ -104,7 +104,8 @@ CHECKS = {
                             "population: <=NP jobs in pipeline p, <=NQ in q, <=1 in an undefined pipeline; every flag combination, Start nil or set",
                             "sort.Sort is executed from its real SSA (insertion sort for these sizes)"],
             "runs": [step("VerifC12Retention", {"NP": 2, "NQ": 0}, {"NP": 3, "NQ": 0}, reach=["removed", "full-population"], flags={"solver": "cvc5-int"}, replay="harness"),
-                     step("VerifC12Retention", {"NP": 1, "NQ": 1}, {"NP": 2, "NQ": 1}, reach=["removed", "full-population"], flags={"solver": "cvc5-int"}, replay="harness")]},
+                     step("VerifC12Retention", {"NP": 1, "NQ": 1}, {"NP": 2, "NQ": 1}, reach=["removed", "full-population"], flags={"solver": "cvc5-int"}, replay="harness"),
+                     step("VerifC12Retention", {"NP": 4, "NQ": 0, "finishedonly": 1}, {"NP": 5, "NQ": 0, "finishedonly": 1}, reach=["removed", "full-population"], flags={"solver": "cvc5-int"}, replay="harness")]},
     "C13": {"prefixes": ["C13."],
             "assumptions": ["lock discipline, not a whole-program race analysis: every access to memory reachable from the PipelineRunner must happen with r.mx held in the right mode",
                             "declared happens-before exceptions: the scheduler goroutine reads its own job's sched/ID; fields set once in NewPipelineRunner (store, outputStore, persistRequests, createTaskRunner) are immutable (writes are reported)",
@@ -131,8 +132,10 @@ CHECKS = {
                 "after a symbolic prefix of L3 events the pending activities become threads (scheduler goroutines that end on their own when scheduled or with context.Canceled once the stop was delivered; stop-delivery goroutines; in thorough a racing ScheduleAsync client); Shutdown runs on the harness thread; the forced variant cancels ctx from another thread at an arbitrary switch point",
                 "time.After(poll interval) fires once something changed since it was armed (idle-iteration elision); the persist loop and pending start timers are not threads in the registered bounds",
                 "the store is a recording stub; 'store equals final state' compares flags and start/end presence per job"],
-            "runs": [step("VerifC11Shutdown", {"K": 2, "N": 2, "racer": 0}, {"K": 2, "N": 2, "racer": 1}, reach=["shutdown.graceful", "shutdown.forced", "shutdown.with-running-job", "shutdown.with-waiting-job", "end"],
-                          flags={"preempt": 0, "workers": 8})]},
+            "runs": [step("VerifC11Shutdown", {"K": 2, "N": 2, "racer": 0}, {"K": 2, "N": 2, "racer": 0}, reach=["shutdown.graceful", "shutdown.forced", "shutdown.with-running-job", "shutdown.with-waiting-job", "end"],
+                          flags={"preempt": 0}),
+                     step("VerifC11Shutdown", {}, {"K": 0, "N": 1, "racer": 1, "idlepipeline": 0}, reach=["shutdown.graceful", "shutdown.forced", "racer.accepted", "end"],
+                          flags={"preempt": 0}, thorough_only=True)]},
     "C18": {"prefixes": ["C18."],
             "assumptions": ["contract-level: checked up to the exec boundary - the list handed to expand.ListEnviron (later entries override earlier ones: mvdan/sh contract), the variables handed to the template renderer, the command text; the shell interpreter, text/template and exec are not executed",
                             "stubs: os.Environ (symbolic process environment), os.Getwd, interp.New/Run, expand.ListEnviron, syntax.Parser.Parse, utils.RenderString (identity on strings without template actions), reflect.ValueOf(x).Kind()",
